@@ -128,7 +128,7 @@ def run_case(ctx, rng, idx):
         cfg.invalid_rate = 0.1  # refused calls are part of the build: they must leave no trace in what is measured
         cfg.avoid = {"copy", "clear"}
         try:
-            live, _ = history.run_history(NullCtx(), rng, cfg, battery_every=0)
+            live, _ = history.run_history(history.BuildCtx(ctx, "C08"), rng, cfg, battery_every=0)
         except Exception as e:
             ctx.note("build-failed:" + type(e).__name__)
             return
